@@ -63,21 +63,32 @@ def attr_src(a):
 FTY = {"i32": "i32", "opt": "Option<i32>", "inner": "Inner"}
 
 
-def body_src(shape, fattrs, fty):
+# generics: (parameter list, where clause, type of the extra field that uses the parameter)
+GENS = {"none": ("", "", None), "type": ("<T>", "", "T"), "bounded": ("<T: Clone + std::fmt::Debug>", "", "Vec<T>"),
+        "where": ("<T>", "where T: Clone", "Option<T>"), "default": ("<T = i32>", "", "Option<T>"),
+        "const": ("<const N: usize>", "", "[i32; N]"), "lifetime": ("<'a>", "", "&'a str"), "two": ("<A, B: 'static>", "", "(A, Option<B>)")}
+
+
+def body_src(shape, fattrs, fty, extra=None, ident="a"):
     fa = " ".join(attr_src(a) for a in fattrs)
     t = FTY[fty]
-    return {"named": "{ %s a: %s, b: i32 }" % (fa, t), "named0": "{}", "tuple": "(%s %s, i32)" % (fa, t), "tuple0": "()",
+    ex_named = (", g: %s" % extra) if extra else ""
+    ex_tuple = (", %s" % extra) if extra else ""
+    return {"named": "{ %s %s: %s, b: i32%s }" % (fa, ident, t, ex_named), "named0": "{}", "tuple": "(%s %s, i32%s)" % (fa, t, ex_tuple), "tuple0": "()",
             "newtype": "(%s %s)" % (fa, t), "unit": ""}[shape]
 
 
 def item_src(it, name):
     ca = " ".join(attr_src(a) for a in it["c"])
+    params, where, extra = GENS[it.get("gen", "none")]
+    ident = it.get("ident", "a")
     if it["kind"] == "struct":
-        body = body_src(it["shape"], it["f"], it["fty"])
-        semi = ";" if it["shape"] in ("tuple", "tuple0", "newtype", "unit") else ""
-        return "%s struct %s %s%s" % (ca, name, body, semi)
+        body = body_src(it["shape"], it["f"], it["fty"], extra, ident)
+        if it["shape"] in ("tuple", "tuple0", "newtype", "unit"):
+            return "%s struct %s%s %s %s;" % (ca, name, params, body, where)
+        return "%s struct %s%s %s %s" % (ca, name, params, where, body)
     va = " ".join(attr_src(a) for a in it["v"])
-    return "%s enum %s { %s V %s, W }" % (ca, name, va, body_src(it["vshape"], it["f"], it["fty"]))
+    return "%s enum %s%s %s { %s V %s, W }" % (ca, name, params, where, va, body_src(it["vshape"], it["f"], it["fty"], extra, ident))
 
 
 def has_serde(it):
@@ -139,11 +150,15 @@ def run(tier):
     q = tier == "quick"
     cases = []
     stats = {"states": 0, "transitions": 0}
-    for kinds, mx in ((["struct"], {"c": 2, "v": 0, "f": 1 if q else 2}), (["struct"], {"c": 1, "v": 0, "f": 2}),
-                      (["enum"], {"c": 1, "v": 2 if not q else 1, "f": 1}), (["enum"], {"c": 2, "v": 1, "f": 0 if q else 1}),
-                      (["enum"], {"c": 0, "v": 1, "f": 2})):
+    allg = list(GENS)
+    ids = ["a", "r#type", "r#fn", "é", "__", "Aa", "_1"]
+    for kinds, mx, gens, idents in ((["struct"], {"c": 2, "v": 0, "f": 1 if q else 2}, ["none"], ["a"]), (["struct"], {"c": 1, "v": 0, "f": 2}, ["none"], ["a"]),
+                                    (["enum"], {"c": 1, "v": 2 if not q else 1, "f": 1}, ["none"], ["a"]), (["enum"], {"c": 2, "v": 1, "f": 0 if q else 1}, ["none"], ["a"]),
+                                    (["enum"], {"c": 0, "v": 1, "f": 2}, ["none"], ["a"]),
+                                    (["struct", "enum"], {"c": 1, "v": 0 if q else 1, "f": 1}, allg, ["a"]),
+                                    (["struct", "enum"], {"c": 1, "v": 0, "f": 1}, ["none", "type"], ids)):
         cfgp = os.path.join(vlib.BUILD, "attrs-cfg.json")
-        json.dump({"kinds": kinds, "palette": palettes(tier), "max": mx}, open(cfgp, "w"))
+        json.dump({"kinds": kinds, "palette": palettes(tier), "max": mx, "gens": gens, "idents": idents}, open(cfgp, "w"))
         r = vlib.run_tlc("MC_Attrs", "MC_Attrs.cfg", workers=12, env={"VERIF_CFG": cfgp}, timeout=2400, metatag="c16p")
         vlib.tlc_must_succeed(r, "MC_Attrs")
         stats["states"] += r.distinct
@@ -227,7 +242,7 @@ def run(tier):
            "rule": "items = {struct, enum} x 6 field shapes x subsets (sizes per slice) of attribute palettes at container / variant / field level (valid keys, unknown keys, wrong value forms, ts and serde spellings) x field type next to `optional`; plus every identifier x rule of the C09 domain for the never-panics part"}
     vlib.write_evidence(PROP, tier, "model_checking", cov,
                         ["rustc is asked only about accepted items without serde attributes (a probe crate cannot contain #[serde] without serde's derive)",
-                         "generics / where-clauses / unusual identifiers other than the C09 alphabet are not yet in the generated items"],
+                         "generic items: 7 parameter-list shapes on named / tuple bodies; identifiers: raw, non-ASCII, `__`, upper-case, `_1`"],
                         time.time() - t0, len(v.violations))
     return 1 if (rc or rc09) else 0
 
